@@ -17,7 +17,9 @@
    (#edges + #components = #vertices).
    A puzzle has one S and one G in two different cells of the board; a problem whose S / G coordinates are off
    the board or coincide has no solution under this specification (the generator of the module never produces
-   one; the plug-in does not either).
+   one).  The solver agrees as long as at least one of S, G is a cell of the board (NurimazeProofs.
+   nurimaze_exact_gen); with both off the board the posted program no longer mentions S and G, and such
+   problems are outside the search families.
 
    problem = [[h; w]; wv; wh; mark; [sy; sx; gy; gx]]
        wv   : h*(w-1) values row-major, wv[y][x] <> 0 = bold line between (y, x) and (y, x+1)     (wall_vertical)
